@@ -250,8 +250,8 @@ def saveOps {π : Type} (tmp path : π) (hdr body : Bytes) (fsyncFirst : Bool) :
   (if fsyncFirst then [.fsync tmp] else []) ++ [.rename tmp path]
 
 /-- `save_snapshot_compressed`: one `write_all` of the whole bitcode blob -/
-def saveOpsQ {π : Type} (tmp path : π) (blob : Bytes) : List (IoOp π) :=
-  [.create tmp, .write tmp blob, .rename tmp path]
+def saveOpsQ {π : Type} (tmp path : π) (blob : Bytes) (fsyncFirst : Bool) : List (IoOp π) :=
+  [.create tmp, .write tmp blob] ++ (if fsyncFirst then [.fsync tmp] else []) ++ [.rename tmp path]
 
 /-- states in which the machine can stop *while* `op` runs: the state before it and, for a write,
     every strict byte prefix of the data already applied -/
@@ -353,13 +353,18 @@ inductive CEmb where
   | tt (orig : List Nat)        -- tensor-train cores: opaque, carries the input
   deriving Repr, DecidableEq
 
-def sparsePositions (i : Nat) : List Nat → List Nat
+/-- positions / values kept by the sparse form, for a "keep this entry" criterion -/
+def sparsePositionsBy (keep : Nat → Bool) (i : Nat) : List Nat → List Nat
   | [] => []
-  | b :: bs => if isBig b && decide (i < U32) then i :: sparsePositions (i + 1) bs else sparsePositions (i + 1) bs
+  | b :: bs => if keep b && decide (i < U32) then i :: sparsePositionsBy keep (i + 1) bs else sparsePositionsBy keep (i + 1) bs
 
-def sparseValues (i : Nat) : List Nat → List Nat
+def sparseValuesBy (keep : Nat → Bool) (i : Nat) : List Nat → List Nat
   | [] => []
-  | b :: bs => if isBig b && decide (i < U32) then b :: sparseValues (i + 1) bs else sparseValues (i + 1) bs
+  | b :: bs => if keep b && decide (i < U32) then b :: sparseValuesBy keep (i + 1) bs else sparseValuesBy keep (i + 1) bs
+
+/-- the code today: `if v.abs() > 1e-6` -/
+def sparsePositions (i : Nat) (v : List Nat) : List Nat := sparsePositionsBy isBig i v
+def sparseValues (i : Nat) (v : List Nat) : List Nat := sparseValuesBy isBig i v
 
 def countBig : List Nat → Nat
   | [] => 0
@@ -382,6 +387,21 @@ def toDense (ttRecon : List Nat → List Nat) : CEmb → List Nat
   | .dense v => v
   | .sparse dim ps xs => scatter (List.replicate dim 0) ps xs
   | .tt orig => ttRecon orig
+
+/-! ### the same functions after proposed/C07-snapshot-exactness-and-atomicity.diff
+     (sparse form keeps every entry whose bits are not +0.0; the 1e-6 count only picks the form) -/
+
+def notPlusZero (b : Nat) : Bool := b != 0
+
+def fromDenseFixed (ttOk : List Nat → Bool) (v : List Nat) : CEmb :=
+  if v.isEmpty then .dense []
+  else if countBig v * 2 ≤ v.length then
+    .sparse v.length (sparsePositionsBy notPlusZero 0 v) (sparseValuesBy notPlusZero 0 v)
+  else if v.length ≥ TT_MIN_DIMENSION && ttOk v then .tt v
+  else .dense v
+
+/-- `temp_path_for`: `.tmp` appended to the whole name -/
+def tmpNameFixed (name : List Char) : List Char := name ++ ['.', 't', 'm', 'p']
 
 /-! ## the quantising format's value map (lib.rs save/load_snapshot_compressed + format.rs) -/
 
@@ -499,5 +519,51 @@ def decompressValue (ttRecon : List Nat → List Nat) : CValue → TValue
 /-- save then load of one field through the quantising format -/
 def roundValue (ttRecon : List Nat → List Nat) (cfg : CConfig) (key field : Name) (v : TValue) : TValue :=
   decompressValue ttRecon (compressValue cfg key field v)
+
+/-! ### the value map after proposed/C07-compressed-bytes.diff and C07-snapshot-exactness-and-atomicity.diff -/
+
+inductive CScalarF where
+  | int (i : Int)
+  | float (bits : Nat)
+  | str (s : String)
+  | bool (b : Bool)
+  | null
+  | bytes (b : List Nat)      -- appended variant
+  deriving Repr, DecidableEq
+
+def compressScalarF : Scalar → CScalarF
+  | .null => .null
+  | .bool b => .bool b
+  | .int i => .int i
+  | .float f => .float f
+  | .str s => .str s
+  | .bytes b => .bytes b
+
+def decompressScalarF : CScalarF → Scalar
+  | .null => .null
+  | .bool b => .bool b
+  | .int i => .int i
+  | .float f => .float f
+  | .str s => .str s
+  | .bytes b => .bytes b
+
+/-- `compress_vector` with the round-trip guard on the id-list branch -/
+def compressVectorF (cfg : CConfig) (key field : Name) (v : List Nat) : CValue :=
+  if isEmbeddingField key field && cfg.ttMode then .vectorTT v
+  else if cfg.delta && looksLikeIdList v field && ((v.map f32ToU64).map u64ToF32 == v) then
+    .idList (Codec.compressIds (v.map f32ToU64))
+  else .vectorRaw v
+
+/-- the fixed save arm for every non-scalar value (scalars go through `compressScalarF`) -/
+def compressValueF (cfg : CConfig) (key field : Name) : TValue → CValue
+  | .scalar s => .scalar (compressScalar s)     -- unused for scalars; see `roundValueF`
+  | .vector v => compressVectorF cfg key field v
+  | .sparse dim ps xs => .vectorSparse dim (Codec.compressIds ps) xs
+  | .pointer p => .pointer p
+  | .pointers ps => .pointers ps
+
+def roundValueF (ttRecon : List Nat → List Nat) (cfg : CConfig) (key field : Name) : TValue → TValue
+  | .scalar s => .scalar (decompressScalarF (compressScalarF s))
+  | v => decompressValue ttRecon (compressValueF cfg key field v)
 
 end Neumann.Snap
